@@ -26,7 +26,9 @@ RULE = (
     "whose cell values encode (variable, row, column), float64/float32/int64 data with optional NaN holes, default or custom dims, "
     "1-D axis vectors or 2-D meshgrids (C/F order, read-only), Dataset / named / unnamed DataArray inputs with coordinates declared in either "
     "order; plus clear non-meshgrids (deviation >= 10 % of the node spacing, transposed or ij-indexed arrays), wrong name counts, and nested uses "
-    "through BaseGridder.grid and project_grid. Non-trivial = the grid has at least 2 cells with position-encoding values and is not a "
+    "through BaseGridder.grid and project_grid; plus call histories: consecutive calls on twin inputs (same sizes, same first and last axis "
+    "values, same shapes and names; other interior nodes - uniform then non-uniform, non-uniform then another non-uniform, mirrored - and other "
+    "values), the same ndarray / Dataset objects edited in place between calls, and returned arrays overwritten before an identical call. Non-trivial = the grid has at least 2 cells with position-encoding values and is not a "
     "square grid with default names (n_north != n_east, or custom dims, or extra coordinates, or >= 2 variables); distinct = hash of the "
     "coordinate vectors, shape and configuration."
 )
@@ -48,6 +50,11 @@ _QUICK_FLOORS = {
     "class:make_n_vars=4": 140, "class:shape_1xn": 250, "class:shape_nx1": 250, "class:shape_non_square": 2000,
     "class:table_dataset": 1400, "class:table_dataarray_named": 250, "class:table_dataarray_unnamed": 60,
     "class:table_coords_declared_northing_first": 300, "class:table_coords_declared_easting_first": 300,
+    # call histories (twins, in-place edits, overwritten results)
+    "class:twin_uniform_then_nonuniform": 14, "class:twin_nonuniform_then_uniform": 35, "class:twin_nonuniform_then_nonuniform": 25,
+    "class:twin_mirrored": 35, "class:twin_inputs_edited_in_place": 128, "class:twin_returned_arrays_overwritten": 640,
+    "class:twin_calls_meshgrid_from_1d": 128, "class:twin_calls_meshgrid_to_1d": 128, "class:twin_calls_make_xarray_grid_1d": 128,
+    "class:twin_calls_make_xarray_grid_2d": 128, "class:twin_calls_grid_to_table": 128,
     "class:check_meshgrid_clear": 1100, "refused:non_meshgrid": 1100, "refused:name_count": 280,
 }
 FLOORS = {"quick": dict(_QUICK_FLOORS), "thorough": {k: 20 * v for k, v in _QUICK_FLOORS.items()}}
@@ -65,8 +72,8 @@ PER_CASE = 8  # grids per case
 
 def plan(tier):
     if tier == "quick":
-        return collections.OrderedDict(make=260, table=220, convert=100, reject=90, nested=40, probe=6)
-    return collections.OrderedDict(make=5200, table=4400, convert=2000, reject=1800, nested=800, probe=40)
+        return collections.OrderedDict(make=260, table=220, convert=100, reject=90, nested=40, probe=6, twin=40)
+    return collections.OrderedDict(make=5200, table=4400, convert=2000, reject=1800, nested=800, probe=40, twin=800)
 
 
 # ----------------------------------------------------------------------
@@ -714,6 +721,8 @@ def run_case(run, tap, stream, index, rng):
             _stream_nested(run, rng, vd, xr)
         elif stream == "probe":
             _stream_probe(run, rng, vu, xr)
+        elif stream == "twin":
+            _stream_twin(run, rng, vu, xr)
 
 
 def _stream_make(run, rng, vu):
@@ -948,6 +957,126 @@ def _stream_nested(run, rng, vd, xr):
 
     vd.project_grid(array, projection, method=str(rng.choice(["nearest", "linear"])), antialias=bool(rng.random() < 0.5))
     run.count("nested:project_grid")
+
+
+def twin_axis(rng, vec, mode):
+    """Another axis vector with the same size and the same first and last value (mirrored: the same values backwards)."""
+    n = vec.size
+    if mode == "mirrored":
+        return vec[::-1].copy()
+    if n < 3:
+        return vec.copy()
+    first, last = float(vec[0]), float(vec[-1])
+    if mode == "uniform":
+        out = first + (last - first) * (np.arange(n) / (n - 1))
+    else:
+        pos = np.sort(rng.uniform(0.02, 0.98, n - 2))
+        for _ in range(10):
+            if np.all(np.diff(np.concatenate([[0.0], pos, [1.0]])) > 1e-3):
+                break
+            pos = np.sort(rng.uniform(0.02, 0.98, n - 2))
+        out = first + (last - first) * np.concatenate([[0.0], pos, [1.0]])
+    out[0], out[-1] = vec[0], vec[-1]
+    return np.ascontiguousarray(out, dtype="float64")
+
+
+def scribble(run, result):
+    """Overwrite everything a call returned (a cached buffer handed out twice would carry this into the next result)."""
+    import pandas as pd
+    import xarray as xr
+
+    if isinstance(result, tuple):
+        for arr in result[:2]:
+            arr = np.asarray(arr)
+            if arr.flags.writeable:
+                arr[...] = -4.25e7
+    elif isinstance(result, xr.Dataset):
+        for name in list(result.variables):
+            values = result[name].values
+            if values.flags.writeable:
+                values[...] = -4.25e7
+    elif isinstance(result, pd.DataFrame):
+        result.iloc[:, :] = -4.25e7
+    run.count("class:twin_returned_arrays_overwritten")
+
+
+def _stream_twin(run, rng, vu, xr):
+    """
+    Call histories: two consecutive calls whose inputs share summary statistics (sizes, first and last axis value, shapes, names)
+    but differ in content; the same ndarray objects edited in place between calls; returned arrays overwritten before an
+    identical call. Every return is judged by the monitors against its own arguments.
+    """
+    for _ in range(PER_CASE):
+        a = gen_grid_inputs(rng)
+        while a["shape"][0] < 3 and a["shape"][1] < 3:
+            a = gen_grid_inputs(rng)
+        uniform = bool(np.allclose(np.diff(a["e_vec"], 2), 0, atol=1e-9 * abs(a["scale"])) and a["e_vec"].size > 2)
+        if uniform:
+            kind = "uniform_then_nonuniform"
+            modes = ("nonuniform", "nonuniform")
+        else:
+            kind = str(rng.choice(["nonuniform_then_uniform", "nonuniform_then_nonuniform", "mirrored"]))
+            modes = {"nonuniform_then_uniform": ("uniform", "uniform"), "nonuniform_then_nonuniform": ("nonuniform", "nonuniform"),
+                     "mirrored": ("mirrored", "mirrored")}[kind]
+        b = dict(a)
+        b["e_vec"], b["n_vec"] = twin_axis(rng, a["e_vec"], modes[0]), twin_axis(rng, a["n_vec"], modes[1])
+        # same shapes, dtypes and names; other values (still encoding their own cell, of another variable index)
+        b["datas"] = [encode("data", k + 4, a["shape"], rng, dtype=str(d.dtype)) for k, d in enumerate(a["datas"])]
+        b["extras"] = [encode("extra", k + 4, a["shape"], rng) for k in range(len(a["extras"]))]
+        run.count("class:twin_" + kind)
+
+        def fresh(cfg):
+            east, north = broadcast_mesh(cfg["e_vec"], cfg["n_vec"])
+            return dict(e=cfg["e_vec"].copy(), n=cfg["n_vec"].copy(), east=east, north=north,
+                        datas=[d.copy() for d in cfg["datas"]], extras=[x.copy() for x in cfg["extras"]])
+
+        names, enames, dims = list(a["var_names"]), list(a["extra_names"]) or None, tuple(a["dims"])
+
+        def hand_made(arrs):
+            coords = collections.OrderedDict([(dims[0], arrs["n"]), (dims[1], arrs["e"])])
+            for name, arr in zip(a["extra_names"], arrs["extras"]):
+                coords[name] = (dims, arr)
+            return xr.Dataset(collections.OrderedDict((name, (dims, arr)) for name, arr in zip(names, arrs["datas"])), coords=coords)
+
+        calls = collections.OrderedDict([
+            ("meshgrid_from_1d", lambda r: vu.meshgrid_from_1d((r["e"], r["n"]) + tuple(r["extras"]))),
+            ("meshgrid_to_1d", lambda r: vu.meshgrid_to_1d((r["east"], r["north"]) + tuple(r["extras"]))),
+            ("make_xarray_grid_1d", lambda r: vu.make_xarray_grid((r["e"], r["n"]) + tuple(r["extras"]), tuple(r["datas"]), names, dims=dims,
+                                                                  extra_coords_names=enames)),
+            ("make_xarray_grid_2d", lambda r: vu.make_xarray_grid((r["east"], r["north"]) + tuple(r["extras"]), tuple(r["datas"]), names,
+                                                                  dims=dims, extra_coords_names=enames)),
+            ("grid_to_table", lambda r: vu.grid_to_table(hand_made(r))),
+        ])
+        # (1) twins through fresh objects, (2) identical call after the result was overwritten
+        for label, call in calls.items():
+            call(fresh(a))
+            result = call(fresh(b))
+            scribble(run, result)
+            call(fresh(b))
+            run.count("class:twin_calls_" + label)
+        # (3) the SAME ndarray objects, edited in place between the calls
+        shared = fresh(a)
+        grid = hand_made(shared)
+        for label, call in calls.items():
+            if label != "grid_to_table":
+                call(shared)
+        vu.grid_to_table(grid)
+        other = fresh(b)
+        for key in ("e", "n", "east", "north"):
+            shared[key][...] = other[key]
+        for key in ("datas", "extras"):
+            for mine, theirs in zip(shared[key], other[key]):
+                mine[...] = theirs
+        for label, call in calls.items():
+            if label != "grid_to_table":
+                call(shared)
+        # the Dataset object itself: its variables edited in place (index coordinates are immutable, so they stay A's)
+        for name in names:
+            grid[name].values[...] = -grid[name].values - 3
+        vu.grid_to_table(grid)
+        run.count("class:twin_inputs_edited_in_place")
+    run.sample("twin_history", {"kind": kind, "shape": a["shape"], "easting_first": a["e_vec"], "easting_second": b["e_vec"],
+                                "northing_first": a["n_vec"], "northing_second": b["n_vec"]})
 
 
 def _stream_probe(run, rng, vu, xr):
